@@ -101,10 +101,13 @@ func (g *gen) emit(op im.Op) bool {
 // content
 
 var lineBodyBytes = []byte("abcxyzABC0123456789 \t\r\r.,;-+_\x00\xff\xc3\xa9")
-var anyBytes = []byte("ab01 \n\n\n\r\r\t\x00\xff,.-+eE\x80z9")
+var anyBytes = []byte("ab01 \n\n\n\r\r\t\x00\xff,.-+eE\x80z9\x85\xa0")
 
 var numerals = []string{"0", "7", "42", "-3", "+5", "3.25", "-0.5", ".5", "5.", "1e3", "2E-2", "-1.5e+2", "123456789", "00012", "9007199254740993", "0.1"}
-var numSeps = []string{" ", "\n", "\t", "\r\n", " \n ", ",", ";", "  ", "\n\n", " \t", "\r", "\v", "\f", "-", "+", "-", ""}
+var numSeps = []string{" ", "\n", "\t", "\r\n", " \n ", ",", ";", "  ", "\n\n", " \t", "\r", "\v", "\f", "-", "+", "-", "",
+	// bytes that are blanks only for other notions of "space" (Latin-1 NEL / NBSP, their UTF-8 forms, ASCII separators, NUL):
+	// C isspace in the "C" locale says no, so a numeral behind one is not reached
+	"\x85", "\xa0", " \xa0", "\n\x85", "\xc2\xa0", "\xc2\x85", "\x1c", "\x1f", "\x00", "\x08"}
 var nonNumerals = []string{"x", ",", "abc", "-", "0x10", "1e", "inf", "nan", "1_0", "12abc", ".", "#", "1.5.2", "1p3"}
 
 var bigLens = []int{4094, 4095, 4096, 4097, 4098, 5000, 8191, 8192, 8193}
